@@ -144,6 +144,40 @@ def comparable(kind, op, path, in_final, mode):
     return False
 
 
+def site_of(f, clean):
+    """where in the procedure the call at a fired fault sits (from the fault-free trace)"""
+    pos, kind, op, path = f[0], f[1], f[2], f[3]
+    base = path.split('/')[-1]
+    if path == U.DS:
+        cls = 'dataset'
+    elif re.match(r'^%s/part\.\d+\.parquet$' % U.DS, path):
+        cls = 'part'
+    elif re.match(r'^(.*/)?t\d+$', path):
+        cls = 'tmpdir'
+    elif re.match(r'^part\d+\.parquet$', base):
+        cls = 'subpart'
+    elif base in ('_metadata', '_common_metadata'):
+        cls = base
+    else:
+        cls = 'other'
+    where = ''
+    tr = clean['trace']
+    if pos - 1 > clean['final_start'] or (pos - 1 == clean['final_start']):
+        where = 'final-read'
+    elif op == 'exists' and pos <= len(tr) and tr[pos - 1][:2] == (op, path):
+        nxt = tr[pos] if pos < len(tr) else ('',)
+        prv = tr[pos - 2] if pos >= 2 else ('',)
+        if nxt[0] == 'rm' and nxt[1] == path:
+            where = 'rm_retry'
+        elif prv[0] == 'rm' and prv[1] == path:
+            where = 'rm_retry-recheck'
+        elif nxt[0] == 'mv':
+            where = 'move_retry'
+        else:
+            where = 'rm_retry-absent'
+    return f'{kind}@{op}:{cls}' + (f':{where}' if where else '')
+
+
 class Collector:
     def __init__(self):
         self.cases, self.results, self.metas, self.raw = [], [], [], []
@@ -159,33 +193,43 @@ def judge(rep, st, col, clean, o, label, plan_desc):
     for f in o.fired:
         rep.count(f'fired:{f[1]}:{f[2]}')
     tree = st.snapshot(clean['cells'])
-    kinds = '+'.join(sorted({f[1] for f in o.fired})) or 'none'
+    kinds = '+'.join(sorted({site_of(f, clean) for f in o.fired})) or 'none'
+    in_final = any(f[0] - 1 >= clean['final_start'] for f in o.fired)
+    tree_same = norm_tree(tree) == clean['norm']
     # ---- the property itself
     if not raised:
-        if norm_tree(tree) != clean['norm']:
+        if not tree_same:
             extra = sorted(set(map(json.dumps, C.jsonable(tree))) - set(map(json.dumps, C.jsonable(clean['tree']))))
             missing = sorted(set(map(json.dumps, C.jsonable(clean['tree']))) - set(map(json.dumps, C.jsonable(tree))))
             rep.violation(f'silent-different-tree:{kinds}',
                           'the call returned normally but the tree differs from the fault-free one '
                           f'(faults {o.fired})', {**meta, 'extra': extra[:10], 'missing': missing[:10]})
-        try:
-            from spatialpandas.io import read_parquet_dask
-            got = read_parquet_dask(os.path.join(st.root, U.DS)).compute()
-            if U.row_key(got) != st.want_rows:
-                rep.violation(f'silent-wrong-rows:{kinds}', 'the call returned normally but the dataset does not '
-                              f'read back with the input rows (faults {o.fired})', {**meta, 'n_got': len(got)})
-        except Exception as e:  # noqa: BLE001
-            rep.violation(f'silent-unreadable:{kinds}', f'the call returned normally but the dataset cannot be '
-                          f'read: {type(e).__name__} {str(e)[:200]}', meta)
-        try:
-            got = o.frame.compute()
-            if U.row_key(got) != st.want_rows:
-                rep.violation(f'returned-frame-rows:{kinds}',
-                              'the call returned normally but the returned frame does not hold the input rows '
-                              f'(faults {o.fired})', {**meta, 'n_got': len(got)})
-        except Exception as e:  # noqa: BLE001
-            rep.violation(f'returned-frame-raises:{kinds}', f'computing the returned frame raised '
-                          f'{type(e).__name__} {str(e)[:200]}', meta)
+        # an independent read of the dataset: always when the tree differs, else on a sample
+        # (an identical classified tree means every part file holds the same rows as in the
+        # fault-free run, which was read back)
+        if not tree_same or rep.evaluations % 4 == 0:
+            rep.count('reread-checks')
+            try:
+                from spatialpandas.io import read_parquet_dask
+                got = read_parquet_dask(os.path.join(st.root, U.DS)).compute()
+                if U.row_key(got) != st.want_rows:
+                    rep.violation(f'silent-wrong-rows:{kinds}', 'the call returned normally but the dataset does '
+                                  f'not read back with the input rows (faults {o.fired})', {**meta, 'n_got': len(got)})
+            except Exception as e:  # noqa: BLE001
+                rep.violation(f'silent-unreadable:{kinds}', f'the call returned normally but the dataset cannot be '
+                              f'read: {type(e).__name__} {str(e)[-160:]}', meta)
+        # the returned (lazy) frame was built from listings made during the call
+        if not tree_same or in_final or rep.evaluations % 4 == 1:
+            rep.count('returned-frame-checks')
+            try:
+                got = o.frame.compute()
+                if U.row_key(got) != st.want_rows:
+                    rep.violation(f'returned-frame-rows:{kinds}',
+                                  'the call returned normally but the returned frame does not hold the input rows '
+                                  f'(faults {o.fired})', {**meta, 'n_got': len(got)})
+            except Exception as e:  # noqa: BLE001
+                rep.violation(f'returned-frame-raises:{kinds}', f'computing the returned frame raised '
+                              f'{type(e).__name__} {str(e)[-160:]}', meta)
     # ---- correspondence with the model
     asg, cfg = st.config(o)
     tt = trace_term(o.trace)
@@ -286,11 +330,13 @@ def run_setup(rep, st, col, tier):
                 continue
             if tier == 'quick' and kind == 'stale0' and op != 'find':
                 continue
+            if tier == 'quick' and kind == 'fnf' and st.name in ('A-flat', 'B-inside') and op != 'open_r':
+                continue
             go({pos: kind}, 'single')
     # ---- faults that persist over r consecutive attempts of the same call (r <= K: within the
     #      budget when the call is retried; r = K, K+1: the budget is exhausted)
     positions = list(range(1, L + 1))
-    sample = rng.sample(positions, min(len(positions), 10 if tier == 'quick' else 40))
+    sample = rng.sample(positions, min(len(positions), 8 if tier == 'quick' else 40))
     for pos in sample:
         op = o.trace[pos - 1][0]
         kinds = [k for k in ('oserr', 'after', 'partial', 'lie', 'stale') if applicable(k, op)]
@@ -298,7 +344,7 @@ def run_setup(rep, st, col, tier):
         for r in (2, st.K, st.K + 1) if tier != 'quick' else (rng.choice([2, st.K - 1]), st.K):
             go({pos: (kind, r)}, f'repeat{r}')
     # ---- pairs
-    for _ in range(25 if tier == 'quick' else 300):
+    for _ in range(20 if tier == 'quick' else 300):
         p1, p2 = sorted(rng.sample(positions, 2))
         plan = {}
         for p in (p1, p2):
